@@ -58,3 +58,17 @@ Definition io_mis_y (cs : list io_case) : list N :=
   flat_map (fun '(id, f, impl, _) => if sink_eqb (y_sink live f) impl then [] else [id]) cs.
 Definition io_mis_g (cs : list io_case) : list N :=
   flat_map (fun '(id, f, _, ref) => if sink_eqb (g_sink f) ref then [] else [id]) cs.
+
+(** several interpreters in one process: operations, what each script was observed to reach, the
+    "interpreter alone" reference, and whether stdlib.Symbols / unrestricted.Symbols were still
+    what they were when the process started *)
+Definition iso_case := (N * list hop * list robs * list robs * bool)%type.
+Definition iso_mis_y (cs : list iso_case) : list N :=
+  flat_map (fun c : iso_case => let '(id, ops, impl, _, gsame) := c in
+    let st := hinit live_gtable in
+    if list_eqb robs_eqb (map (obs_of live) (y_houts use_copies (t_fix live) st ops)) impl
+       && Bool.eqb (gtable_eqb (glob (y_hrun use_copies (t_fix live) st ops)) live_gtable) gsame
+    then [] else [id]) cs.
+Definition iso_mis_g (cs : list iso_case) : list N :=
+  flat_map (fun c : iso_case => let '(id, ops, _, ref, _) := c in
+    if list_eqb robs_eqb (map (obs_of live) (g_houts (t_fix live) live_gtable [] ops)) ref then [] else [id]) cs.
